@@ -105,6 +105,18 @@ CLAIMED.update({
                 design='§6 C19', note=NOTE_COMMON + ' encoding/csv, encoding/json and net/http are the trusted standard library.'),
 })
 
+CLAIMED.update({
+    'C03': dict(level='proof', technique='Lean 4 proofs about the process-network class (diamond, determinacy of the terminal state incl. the deadlock verdict, capacity monotonicity) + source scan that the library stays in the class + Go runs of every pipeline under schedules/capacities/pacings with a goroutine census',
+                text='Proved for every network of sequential processes over single-reader/single-writer bounded FIFO channels (unbuffered = rendezvous): two enabled processes commute; if one schedule reaches a terminal state every schedule can be extended to that same state and none is longer, so delivered values, their order and the verdict (clean termination or deadlock) do not depend on interleaving, GOMAXPROCS or pacing; a clean termination with small capacities holds for all larger ones. '
+                     'NOT proved: that each concrete pipeline terminates cleanly for every configuration and length - that part is explored by running all 61 indicators, 32 strategies (Compute, Report, ComputeWithOutcome) and compound/decorated strategies over configurations (incl. extreme period spreads), lengths around every period, unequal input lengths, under GOMAXPROCS x input capacity x pacing settings, with a deadlock verdict from a goroutine census, a leak census and comparison of the outputs between schedules and with the Lean list-semantics model. '
+                     'One re-converging pipeline is also modelled at machine level and compared with the Go helpers (verdict and values).',
+                design='§6 C03', note=NOTE_COMMON + ' Termination for all configurations/lengths is bounded exploration, hence proof-partial. The class membership of the code is a regex source scan (no select, no len(chan), no timers/locks in the pipeline packages).'),
+    'C09': dict(level='proof', technique='Model: an instance is its configuration (calls are functions of configuration and input - the Lean models of C01/C05 have no instance state); tie: reuse histories and concurrent calls on one Go instance under the race detector compared with fresh instances and the model + receiver-write source scan',
+                text='In the model a Compute/Report call is a pure function of configuration and input, so reuse is definitional; the content is the tie: every indicator and strategy instance (Compute, Report, ComputeWithOutcome; compound and decorated ones; the shared instances of AllSplitStrategies/AllAndStrategies) is called several times in sequence and concurrently with different inputs, race detector on, and each result must equal the fresh-instance result and the Lean model. '
+                     'A source scan rejects assignments to receiver fields inside Compute/Report.',
+                design='§6 C09', note=NOTE_COMMON + ' Data races are a property of Go memory accesses that the model cannot exhibit: absence of races is witnessed by the race detector on the executions run, not proved.'),
+})
+
 PENDING = {}
 
 def main():
